@@ -32,12 +32,13 @@ func parse(rel string) (*srcFile, error) {
 func leanStr(s string) string {
 	ascii := true
 	for i := 0; i < len(s); i++ {
-		if s[i] < 32 || s[i] > 126 || s[i] == '"' || s[i] == '\\' {
+		if s[i] < 32 || s[i] > 126 {
 			ascii = false
 		}
 	}
 	if ascii {
-		return fmt.Sprintf("b!\"%s\"", s)
+		e := strings.ReplaceAll(strings.ReplaceAll(s, "\\", "\\\\"), "\"", "\\\"")
+		return fmt.Sprintf("b!\"%s\"", e)
 	}
 	var b strings.Builder
 	b.WriteString("([")
